@@ -78,4 +78,136 @@ CHECKS = {
         "note": "fault kinds: NaN, +/-inf, 1e200 (whole vector or one component), raised exception; n=2; maxfun=40",
         "technique": "exhaustive single-fault (thorough: double-fault) injection at every evaluation index on the real code",
     },
+    "C05": {
+        "engine": "gridx", "level": "exploration",
+        "text": "all 5^n per-coordinate box patterns relative to the unconstrained minimiser x shapes (incl. m<n) x conditioning "
+                "x x0 placement x scaling x npt are solved with the default budget and compared with the exact constrained "
+                "minimum obtained by enumerating all active sets (cross-checked against lsq_linear)",
+        "note": "continuous quantifier covered over a fixed data bank only (prescribed singular values, 8 salts); n<=4, m<=6",
+        "technique": "exhaustive enumeration of the active-set pattern alphabet on the real solver, exact small-n oracle",
+    },
+    "C06": {
+        "engine": "gridx", "level": "exploration",
+        "text": "shape x lambda decades x {L1, L2-norm} x box pattern x x0 x calling convention (closures / argsh+argsprox) x "
+                "scaling rows, compared with the exact regularised optimum (enumeration of sign/active patterns for L1; "
+                "accelerated proximal gradient + SLSQP for the L2 norm, cross-checked on L1); extra arguments recorded on "
+                "every call of h and prox",
+        "note": "fixed well-conditioned data bank; n<=3 quick / 4 thorough; regulariser+scaling_within_bounds is a recorded "
+                "known finding (listed as a limitation in the property text)",
+        "technique": "exhaustive enumeration of a configuration alphabet on the real solver, exact KKT-enumeration oracle",
+    },
+    "C07": {
+        "engine": "gridx", "level": "exploration",
+        "text": "every parameter key x value class (default, boundaries, just outside, wrong types), all ordered pairs of "
+                "invalid values on 12 keys, all single and compatible paired faults of the solve arguments x scaling x "
+                "projections, unknown keys, audit of the documented EXIT_* constants, and complete runs for every budget "
+                "1..80 in five configurations that reach the rare exit sites; validity judged by an independent table "
+                "written from docs/advanced.rst",
+        "note": "ambiguous values (None, int-for-float, bool-for-int, boundary 0/1 of ratios) may be accepted or rejected but "
+                "must never raise; projections with npt != n+1 / reduced initial set is a recorded known finding",
+        "technique": "exhaustive enumeration of the input-validity alphabet (singles and pairs) on the real entry point",
+    },
+    "C09": {
+        "engine": "solvex", "level": "exploration",
+        "text": "all subsets (size<=3) of a bank of six convex sets x three bound settings x four starting points x restart "
+                "modes x functions (incl. a 'pull' objective whose solution sits where a box face crosses a curved boundary); "
+                "every evaluated point is matched by its bytes against the outputs of the wrapped projection routine and "
+                "checked against the sqrt(p*tol) bound / exact box",
+        "note": "n=2 quick, n<=3 thorough; a projection call with sweeps == max_iter counts as 'hit the cap'",
+        "technique": "bounded exhaustive exploration of the implementation over a constraint-geometry alphabet; distance-"
+                     "function oracle on every evaluation",
+    },
+    "C10": {
+        "engine": "solvex", "level": "exploration",
+        "text": "problem x abs_tol x maxfun x rhoend x restart mode x max_unsuccessful_restarts (incl. 0) x rhoend_scale, all "
+                "single answer deviations on a sub-grid (pairs in thorough) and all-evaluations-faulty runs; each message is "
+                "checked against the numerical fact it claims (recorded calls, live rho, restarts counted through wrappers)",
+        "note": "n=2; restarts counted via wrapped soft_restart / solve_main",
+        "technique": "stateless deviation-bounded model checking of the implementation, clause-by-clause exit predicates",
+    },
+    "C11": {
+        "engine": "solvex", "level": "exploration",
+        "text": "function x npt in [n+1,2n+1] x bounds/scaling x EVERY budget from npt to npt+30 (+3 large) x five restart modes "
+                "(+ averaging rows; single deviations in thorough); soln.jacobian compared with an independent lstsq fit "
+                "through the recorded calls named by jacmin_eval_nums, and with A for linear residuals",
+        "note": "tolerance 1e-8*cond(W); n<=3",
+        "technique": "bounded exhaustive exploration (all budgets x configuration alphabet), independent-fit oracle",
+    },
+    "C12": {
+        "engine": "gridx", "level": "exploration",
+        "text": "g letters^n x scale x 7 Hessian families x delta decades x ALL 5^n bound patterns x two current points, n<=3 "
+                "(4 thorough): exact box feasibility, ball, no model increase, Cauchy decrease (independent Cauchy point), "
+                "returned gradient",
+        "note": "Python kernels only (Fortran trustregion package not installed); property quantifies to n=8",
+        "technique": "exhaustive enumeration of an input-shape alphabet on the real kernel, exact oracles",
+    },
+    "C13": {
+        "engine": "gridx", "level": "exploration",
+        "text": "(a) box geometry solver over c x g^n x Delta x all 5^n patterns (incl. degenerate) against the global maximum "
+                "found on the clipped ray by bisection; (b) ctrsbox_pgd / ctrsbox_geometry / ctrsbox_sfista over a bank of 8 "
+                "set geometries (three defined relative to Delta); (c) Controller.trust_region_step on controllers built by "
+                "the real solve() with L1/L2 regularisers and perturbed models: predicted reduction never negative",
+        "note": "n<=3 (a), n=2 (b,c)",
+        "technique": "exhaustive enumeration of input-shape alphabets on the real kernels, exact (KKT) oracle for (a)",
+    },
+    "C14": {
+        "engine": "gridx", "level": "exploration",
+        "text": "(a) every per-coordinate placement of x0 (12 letters)^n x rhobeg x gap x npt, n<=3, solve run with maxfun=npt; "
+                "(b) both direction generators over all active-set patterns {lower==0, upper==0, tight, far}^n, n<=4 x "
+                "requested counts x six RNG answer menus",
+        "note": "RNG owned by the harness; the 2*delta 'extra directions for active constraints' of the orthogonal generator "
+                "are a recorded known finding",
+        "technique": "exhaustive enumeration of placement / active-set alphabets on the real code, geometric predicates",
+    },
+    "C15": {
+        "engine": "gridx", "level": "exploration",
+        "text": "every ordered selection of <=3 (thorough 4) sets from a bank of 9 x 4 starts x 4 tolerances x sweep caps x n; "
+                "sweeps counted through wrapped projectors; true projection computed independently and certified by a KKT / "
+                "NNLS check before it is used",
+        "note": "near-optimality asserted for tol<=1e-8 only (DESIGN.md 4 C15 explains why a looser tolerance cannot promise it)",
+        "technique": "exhaustive enumeration of ordered set selections on the real routine, certified-reference oracle",
+    },
+    "C16": {
+        "engine": "modelx", "level": "model_checking",
+        "text": "breadth-first search over histories of {replace, append, shift base, re-fit} on the real Model (depth 4-6), "
+                "states de-duplicated on the bytes of all mutable attributes; in every state the fit identities are "
+                "evaluated on a copy and every shift transition is checked for invariance",
+        "note": "n<=3, m<=3, dyadic point alphabet, base points up to 2^20; tolerance 1e3*eps*cond(W)*scale",
+        "technique": "explicit-state model checking of the implementation (every transition is a real method call)",
+    },
+    "C17": {
+        "engine": "modelx", "level": "model_checking",
+        "text": "breadth-first search (depth 3, 4 on reduced alphabets) over histories of all six update operations with "
+                "incumbent-relative residual letters (better/worse/tie/sign-flipped tie/NaN/inf), with and without a "
+                "regulariser; every transition is compared with a shadow model and the final-result query is evaluated in "
+                "every state",
+        "note": "n=2, m=2, npt 3..5; non-finite values rank equal in the oracle (the property only prefers finite over NaN)",
+        "technique": "explicit-state model checking of the implementation against a reference (shadow) model",
+    },
+    "C18": {
+        "engine": "solvex", "level": "exploration",
+        "text": "16 modes x bounds x budgets x problems with the diagnostic table on, all single answer deviations on a sub-grid "
+                "(pairs in thorough); row-wise and time-series predicates on soln.diagnostic_info; columns parsed from "
+                "docs/diagnostic.rst; one row per iteration verified against a wrapped recorder",
+        "note": "n<=3; coverage of the radius-update sites reported by iteration type",
+        "technique": "stateless deviation-bounded model checking of the implementation, time-series invariants",
+    },
+    "C19": {
+        "engine": "gridx", "level": "exploration",
+        "text": "per configuration (default, bounded, scaled, infeasible x0, every convex-set subset, regression, regularised, "
+                "restarts, averaging): owned-RNG run, repeat, EVERY single RNG-answer deviation, two differently seeded runs "
+                "under the real generator, fresh-process comparison; caller-side copies of x0, bounds, user_params compared",
+        "note": "np.random.normal/randint/seed owned; other entry points covered by the differently seeded real runs",
+        "technique": "exhaustive enumeration of RNG answers as choice points on the real solver, bit-equality oracle",
+    },
+    "C20": {
+        "engine": "solvex", "level": "exploration",
+        "text": "every result object of an exploration over 14 modes x budgets x single answer deviations (all exit flags other "
+                "than input error), sizes beyond the printing thresholds, all-NaN/inf runs, plus the Cartesian product of "
+                "{flag} x {None, NaN, array} per optional field for synthetic results; field-by-field comparison after a "
+                "strict JSON round trip and of str()",
+        "note": "results containing +-inf are outside the strict-JSON clause (they cannot be reproduced exactly through strict "
+                "JSON); save_xk / save_rk tables are recorded known findings",
+        "technique": "stateless deviation-bounded exploration to generate the result corpus + exhaustive synthetic enumeration",
+    },
 }
